@@ -63,7 +63,7 @@ fn overwrite(group: bool) {
     kani::cover!(o != o2, "value changed");
     core::mem::forget(p);
 }
-harness_sync! { #[kani::unwind(10)] fn c07_overwrite_consumer() { overwrite(false) } }
+harness_sync! { #[kani::unwind(10)] fn c07_overwrite_consumer_t() { overwrite(false) } }
 harness_sync! { #[kani::unwind(10)] fn c07_overwrite_group_t() { overwrite(true) } }
 harness_sync! { #[kani::unwind(10)] fn c07_get_after_store_consumer() { get_after_store(false) } }
 harness_sync! { #[kani::unwind(10)] fn c07_get_after_store_group() { get_after_store(true) } }
@@ -137,5 +137,5 @@ fn survives_restart(ga: bool, ia: u32, gb: bool, ib: u32) {
     core::mem::forget(q);
     core::mem::forget(st2);
 }
-harness_sync! { #[kani::unwind(10)] fn c07_survives_restart_consumer_and_group() { survives_restart(false, 5, true, 5) } }
+harness_sync! { #[kani::unwind(10)] fn c07_survives_restart_consumer_and_group_t() { survives_restart(false, 5, true, 5) } }
 harness_sync! { #[kani::unwind(10)] fn c07_survives_restart_two_groups_t() { survives_restart(true, 5, true, 6) } }
